@@ -660,6 +660,22 @@ pub fn c18(a: &Args, rep: &mut Report) {
     });
     // drums: one clip removes the m vertices of a whole end cap (sampled permutations of a removed set of m)
     drum_cells(a, rep, "C18", &DRUM_QUICK[..20], &DRUM_THOROUGH[..26], |c, rep| one_c18("C18", c, rep));
+    // the fixed witnesses of finding F5 among the drum inputs (findings/F5-C18-*.json; known findings, matched by input hash +
+    // signature): replayed in every run
+    if a.leg.is_none() {
+        let mut files: Vec<_> = std::fs::read_dir(a.verif_dir.join("findings")).map(|d| d.filter_map(|e| e.ok()).map(|e| e.path()).collect()).unwrap_or_default();
+        files.retain(|p: &std::path::PathBuf| p.file_name().and_then(|n| n.to_str()).map_or(false, |n| n.starts_with("F5-C18-") && n.ends_with(".json")));
+        files.sort();
+        for f in files {
+            let Ok(txt) = std::fs::read_to_string(&f) else { continue };
+            let Ok(v) = serde_json::from_str::<serde_json::Value>(&txt) else { continue };
+            let Some(cj) = v.get("case") else { continue };
+            let mut c = Case::from_json(cj);
+            c.origin = format!("findings/{}", f.file_name().unwrap().to_string_lossy());
+            in_pool(|| one_c18("C18", &c, rep));
+            rep.count("f5_witness_inputs", 1);
+        }
+    }
     // long histories of one cell
     if a.leg.is_none() {
         let lens: Vec<usize> = if a.tier == "thorough" { vec![70000, 70000, 140000, 140000, 270000, 270000, 70000, 140000] } else { vec![70000, 70000, 70000, 140000] };
